@@ -307,6 +307,24 @@ def runLine (line : String) : String :=
           r.name ++ " " ++ decode (PStateDriver.showProg (Lower.genRuleSym names i r)))
       | none => "bad-op"
     | _ => "bad-op"
+  | "SO" :: ex :: rest =>
+    -- C08, search step: the specified report for an OPTIMIZED rule set (read back as core expressions)
+    match sexpParse rest with
+    | some (.list rs :: .atom rule :: ins) =>
+      match rs.mapM oruleOf, ins.mapM (fun (x : SExp) => match x with | .atom h => strOf h | _ => none) with
+      | some orules, some inputs =>
+        let rules := Ref.ofOptimizedRules orules
+        let names := rules.map (·.name)
+        " | ".intercalate (inputs.map fun input =>
+          match RefTrace.traceMeaning rules (ex = "1") noUni 100000 rule input with
+          | (.ok _, _) => "ok"
+          | (.stuck, _) => "stuck"
+          | (.fuel, _) => "fuel"
+          | (.fail, calls) =>
+            let (p, pos, neg) := RefTrace.specReport calls
+            s!"err {p} [{",".intercalate (sortNames (pos.map (ruleName names)))}] [{",".intercalate (sortNames (neg.map (ruleName names)))}]")
+      | _, _ => "bad-op"
+    | _ => "bad-op"
   | "S" :: ex :: rest =>
     -- C08: the failure report specified on the call tree of the reference semantics
     match sexpParse rest with
